@@ -10,10 +10,13 @@ CORPUS = []
 
 
 def M(id, prop, file, old, new, expect=None, kind='mutant', note='',
-      accept_error=False):
+      accept_error=False, on=None):
+    """on=<seeded refactoring id>: the edit is applied on top of that
+    refactoring's patch (checks must follow refactored code well enough to
+    still see the breakage)"""
     CORPUS.append(dict(id=id, prop=prop, file=file, old=old, new=new,
                        expect=expect, kind=kind, note=note,
-                       accept_error=accept_error))
+                       accept_error=accept_error, on=on))
 
 
 def MM(id, prop, edits, expect=None, kind='mutant', note=''):
@@ -1141,3 +1144,33 @@ M('C16-stream-bias-both', 'C16', F_COMPRESS,
   "COMPRESSED_LUA_CHAR_TABLE = list(\n    b'#\\n 0123",
   "COMPRESSED_LUA_CHAR_TABLE = list(\n    b'##\\n 0123", expect='R-C16-stream',
   note='shifts table and bias consistently in encoder and decoder')
+
+
+# ------------------------------------------- mutants on refactored code ----
+# (the base is a behaviour-preserving refactoring written by a sub-agent; the
+# edit on top breaks the property; the rule has to follow the refactored code)
+M('C17-on-neutral-get-sprite-nibbles', 'C17', F_GFX,
+  "                        row.append(b & 0x0f)\n"
+  "                        row.append((b & 0xf0) >> 4)\n",
+  "                        row.append((b & 0xf0) >> 4)\n"
+  "                        row.append(b & 0x0f)\n",
+  expect='R-C17-inverse', on='neutral-C17')
+M('C17-on-neutral-get-sprite-clip', 'C17', F_GFX,
+  "                    if tx > 15 or below_sheet:\n",
+  "                    if tx > 16 or below_sheet:\n",
+  expect='R-C17-', on='neutral-C17')
+M('C16-on-neutral-gfx-table', 'C16', F_GFX,
+  "pixels = bytes(row).translate(_NIBBLE_SWAP_TABLE)",
+  "pixels = bytes(row)", expect='R-C16-gfx', on='neutral-C16')
+M('C03-on-neutral-music-flags', 'C03', 'pico8/music/music.py',
+  "chan_flags = (flags & 1, (flags & 2) >> 1, (flags & 4) >> 2, 0)",
+  "chan_flags = (flags & 1, (flags & 4) >> 2, (flags & 2) >> 1, 0)",
+  expect='R-C03-layout', on='neutral-C03')
+M('C04-on-neutral-png-shift', 'C04', F_PNG,
+  "                picobyte |= (row[pixel_start + plane] & 3) << shift\n",
+  "                picobyte |= (row[pixel_start + plane] & 1) << shift\n",
+  expect='R-C04-stego', on='neutral-C04')
+M('C04-on-neutral-refuse-off', 'C04', F_PNG,
+  "    if used_size > CODE_AREA_SIZE:\n",
+  "    if used_size > CODE_AREA_SIZE + 256:\n",
+  expect='R-C04-refuse', on='neutral-C04')
